@@ -4,7 +4,7 @@ import CelmaVerif.Model.Interleave
   line-protocol driver for the handlermt component (C09).
 
   The per-thread expectation of a `run` line is the result of the thread's job *run alone* in
-  the interleaving model (`Job.aloneResult`, the quantity `C09_jobs_noninterference` proves to
+  the interleaving model (`Job.aloneResult`, the quantity `C09_jobs_noninterference_partial` proves to
   be the result under every complete schedule).  The model covers "simple" threads only: arguments
   of kind vec_str / list_str / vec_int (decimal tokens) / str / int / flag without checks,
   constraints, formats or cardinalities, used as `-k value` / `--long value` / `-f`.  For every
@@ -180,6 +180,14 @@ def step (s : St) (line : String) : St × String :=
       let d := s.get t
       (s.set t { d with hasHc := true }, "ok")
     | _, _, _ => (s, "bad-op")
+  | ["help", tt] =>
+    -- usage threads (Handler::usage -> Singleton<Groups>): outside the driver's fragment
+    match (kv [tt] "t").bind String.toNat? with
+    | some t =>
+      if t > 63 then (s, "bad-op") else
+      let d := s.get t
+      (s.set t { d with hasHc := true }, "ok")
+    | none => (s, "bad-op")
   | "argv" :: tt :: words =>
     match (kv [tt] "t").bind String.toNat? with
     | some t =>
